@@ -63,14 +63,9 @@ Example ex_unwind :
   apply es w_f0 (temp_name w_cfg_s w_fn w_tok) = None.
 Proof. vm_compute. repeat split; reflexivity. Qed.
 
-(* finding F44: the write error of the 2nd chunk is swallowed, the save commits chunks 1 and 3 *)
-Lemma swallowed_refuted :
-  token_ok w_tok = true /\ digits_ok w_now = true /\ same_fs w_cfg_s = true /\
-  gen.T17.SWALLOW_WRITE_ERROR_SITES <> [] /\
+(* a swallowed write error would commit a file that is neither old nor new: the
+   reason why SWALLOW_WRITE_ERROR_SITES has to be empty (finding C17.F44, fixed) *)
+Example ex_swallowed_would_break :
   ~ atomic_outcome (w_f0 w_fn) (concat w_ws)
       (apply (effects w_cfg_s w_fn w_tok w_now 6 w_f0 (swallowed_ops w_ws 1)) w_f0 w_fn).
-Proof.
-  split; [vm_compute; reflexivity|]. split; [vm_compute; reflexivity|].
-  split; [vm_compute; reflexivity|]. split; [vm_compute; discriminate|].
-  intros [H|[H|[H _]]]; vm_compute in H; discriminate.
-Qed.
+Proof. intros [H|[H|[H _]]]; vm_compute in H; discriminate. Qed.
